@@ -6,7 +6,7 @@ CLAUSE = {
     "_selects": "select", "_select_star": "select", "_select_star_tables": "select", "_distinct": "select",
     "_distinct_on": "select", "_top": "select", "_top_percent": "select", "_top_with_ties": "select",
     "_modifiers": "select",
-    "_from": "from", "_joins": "join", "_use_indexes": "index-hint", "_force_indexes": "index-hint",
+    "_from": "from", "_joins": "join", "_use_indexes": "use-index", "_force_indexes": "force-index",
     "_prewheres": "prewhere", "_wheres": "where", "_groupbys": "group-by", "_with_totals": "group-by",
     "_mysql_rollup": "group-by", "_havings": "having", "_orderbys": "order-by",
     "_limit": "limit", "_offset": "offset", "_limit_by": "limit",
@@ -26,3 +26,16 @@ CLAUSE = {
 AUXILIARY = {"_foreign_table", "_subquery_count", "_wrapper_cls", "immutable"}
 # methods that are not calls "addressing a clause" of the statement under construction
 NOT_CLAUSE_CALLS = {"replace_table", "as_", "union", "union_all", "intersect", "minus", "except_of", "slice"}
+
+# the clause(s) each builder method is about (from its name / documentation; `where` routes into ON CONFLICT .. WHERE
+# after on_conflict()).  A method that writes a slot of another clause has a side effect on that clause.
+METHOD_CLAUSE = {
+    "columns": {"insert"}, "delete": {"delete"}, "distinct": {"select"}, "distinct_on": {"select"},
+    "do_nothing": {"on-conflict"}, "do_update": {"on-conflict"}, "fetch_next": {"limit"},
+    "for_update": {"for-update"}, "force_index": {"force-index"}, "from_": {"from"}, "groupby": {"group-by"},
+    "having": {"having"}, "insert": {"insert"}, "into": {"insert"}, "join": {"join"}, "limit": {"limit"},
+    "modifier": {"select"}, "offset": {"offset"}, "on_conflict": {"on-conflict"}, "orderby": {"order-by"},
+    "prewhere": {"prewhere"}, "replace": {"insert"}, "returning": {"returning"}, "rollup": {"group-by"},
+    "select": {"select"}, "set": {"update"}, "top": {"select"}, "update": {"update"}, "use_index": {"use-index"},
+    "where": {"where", "on-conflict"}, "with_": {"with"}, "with_totals": {"group-by"},
+}
